@@ -53,13 +53,24 @@ def parseSubs (v : Val) : Option (List SubModel) := do
     | .list [.int n, .bool a, .bool b] => some ⟨n.toNat, a, b⟩
     | _ => none)
 
-/-- `C18.init_row legacy subs nIds topSample popSample` -/
+/-- `C18.init_row subs nIds topSample popSample` — the code as it is -/
 def initOp : Op
-  | [.bool legacy, subsV, .int n, topV, popV] => do
+  | [subsV, .int n, topV, popV] => do
     let subs ← parseSubs subsV
     let top ← topV.flts?
     let pop ← popV.fltss?
-    match initRow legacy subs n.toNat top pop with
+    match initRow subs n.toNat top pop with
+    | .error e => some [errVal (errName e)]
+    | .ok row => some [.str "ok", ofFlts row]
+  | _ => none
+
+/-- `C18.init_row_legacy subs nIds topSample popSample` — pre-fix (`isinstance`) -/
+def initLegacyOp : Op
+  | [subsV, .int n, topV, popV] => do
+    let subs ← parseSubs subsV
+    let top ← topV.flts?
+    let pop ← popV.fltss?
+    match initRowLegacy subs n.toNat top pop with
     | .error e => some [errVal (errName e)]
     | .ok row => some [.str "ok", ofFlts row]
   | _ => none
@@ -88,7 +99,7 @@ def tableOp : Op
   | _ => none
 
 def ops : List (String × Op) :=
-  [("C18.format_chains", formatOp), ("C18.roundtrip", roundtrip), ("C18.init_row", initOp),
+  [("C18.format_chains", formatOp), ("C18.roundtrip", roundtrip), ("C18.init_row", initOp), ("C18.init_row_legacy", initLegacyOp),
    ("C18.init_row_filter", initFilterOp), ("C18.table", tableOp)]
 
 end ChiDriver.C18
